@@ -2,7 +2,15 @@
 with several members per `==` class, memoize call sequences, list functions); every transition is
 re-executed in the real interpreter and compared with the post-state / results the specification
 printed.  Python only renders source text and compares canonical values for equality; which keys
-belong to one class comes from the specification's POOL line."""
+belong to one class comes from the specification's POOL line.
+
+Reports: a problem is attributed to the class of the key concerned; once a class has a reported problem
+in a history, later symptoms in that class along the same history are consequences and not reported again
+("taint"), so a defect is reported at its minimal history.  Note that a hash/equality disagreement in the
+implementation is not deterministic: Rust's HashMap draws a random hash seed per map, and a key whose
+hash disagrees with an equal stored key is still found when 7 bits of the two hashes happen to collide
+(about 1 case in 128) - which transitions of a broken class are reported can differ slightly from run to
+run, the finding keys (named after the pair of key kinds that met) do not."""
 import json
 import os
 
@@ -114,15 +122,10 @@ def name_key(group, detail, own, other):
     keys of different kinds are not identified" then shares a few keys (cross:<kinds>:<group>) instead
     of one key per operator, read path and symptom; otherwise the key names group, kind and symptom."""
     own, other = sorted(set(own)), sorted(set(other))
-    cand = [k for k in other if k not in own]
-    if len(cand) >= 2:
-        pair = cand[:2]
-    elif len(cand) == 1 and own:
-        pair = sorted([own[0], cand[0]])
-    elif len(own) >= 2:
-        pair = own[:2]
-    else:
+    kinds = sorted(set(own) | set(other))
+    if len(kinds) < 2:
         return "%s:%s:%s" % (group, "+".join(own) or "-", detail)
+    pair = kinds
     return "cross:%s:%s" % ("~".join(pair), group)
 
 
@@ -411,13 +414,16 @@ def run(rep, tier, wd, mutant=None):
                     got = sorted([[cvl.cj(x) for x in g["v"]] for g in st["v"]["v"]]) if ok else None
                     ok = ok and got == sorted([[cvl.cj(pool.canon[t["xs"][p - 1] - 1]) for p in g] for g in want])
                 if not ok:
-                    # name the finding after two elements of one class and different kinds, if there are any
+                    # name the finding after the kinds of the elements that share a class with an element of
+                    # another kind (all such classes: which one is mistreated cannot be told from the result)
                     own, others = [pool.kind(k) for k in t["xs"]][:1], []
+                    mixed = set()
                     for k1 in t["xs"]:
-                        ks = sorted(set(pool.kind(k2) for k2 in t["xs"] if pool.cls[k2 - 1] == pool.cls[k1 - 1]))
+                        ks = set(pool.kind(k2) for k2 in t["xs"] if pool.cls[k2 - 1] == pool.cls[k1 - 1])
                         if len(ks) > 1:
-                            own, others = ks[:1], ks[1:2]
-                            break
+                            mixed |= ks
+                    if mixed:
+                        own, others = sorted(mixed)[:1], sorted(mixed)[1:]
                     lim.mismatch(name_key(fn, "wrong-value" if st.get("o") == "ok" else cvl.outcome(st), own, others),
                                  "%s: observed %s, specification expects %s" % (src, json.dumps(got if got is not None else st)[:300], json.dumps(want)[:300]),
                                  {"steps": [src], "expected": want, "observed": st})
